@@ -100,9 +100,27 @@ int prop_unknown(Run& run) {
                 r.static_class[0] = X; // objects of X are then "of exactly the static type"
             set_current_case(run, w->name(), "{\"left_out\":" + std::to_string(X) + ",\"registry\":" + dump_registry(r) + "}");
             w->hard_reset();
+            // in a third of the cases the class *was* registered when an earlier update ran and its
+            // registration was removed since (a plug-in unloaded): it is unregistered all the same
+            bool registered_before = rng.chance(1, 3);
+            if (registered_before) {
+                Registry before = full;
+                before.static_class[0] = r.static_class[0];
+                before.static_class[1] = r.static_class[1];
+                set_stage("materialize-earlier-registry");
+                w->materialize(before);
+                set_stage("earlier-update");
+                UpdateResult u0 = w->update();
+                if (!u0.ok) {
+                    registered_before = false;
+                    w->hard_reset();
+                } else {
+                    run.count("class-registered-during-an-earlier-update");
+                }
+            }
             set_stage("materialize");
             w->materialize(r);
-            CaseCtx c{run, *w, r, o, rng, "class " + std::to_string(X) + " is not registered"};
+            CaseCtx c{run, *w, r, o, rng, "class " + std::to_string(X) + (registered_before ? " is no longer registered (it was when an earlier update ran)" : " is not registered")};
             set_stage("update");
             UpdateResult u = w->update();
             set_stage("monitor");
